@@ -1,6 +1,7 @@
 import AvroModel.Theorems.C17
 import AvroModel.Theorems.C17stream
 import AvroModel.Theorems.C17class
+import AvroModel.Theorems.C17classBig
 /-
 C17 — all parts together: the reader state machine (`C17.lean`) and the truncation-prefix theorem
 with the real datum deserializer on a cut block, on the streaming back-end under any chunk
